@@ -119,12 +119,12 @@ def make_donor(rng, raw, parsed, named):
     return out
 
 
-def run_impl(raw, parsed, codec, si0, sync, ops):
+def run_impl(raw, parsed, codec, si0, sync, ops, meta0=None):
     """returns list of (status, stream bytes after the op)"""
     import fastavro
     from fastavro.write import Writer
     fo = io.BytesIO()
-    w = Writer(fo, parsed, codec=codec, sync_interval=si0, sync_marker=sync)
+    w = Writer(fo, parsed, codec=codec, sync_interval=si0, sync_marker=sync, metadata=(dict(meta0) if meta0 is not None else None))
     hdr = fo.getvalue()
     trace = []
     for op in ops:
@@ -193,9 +193,15 @@ def run(ctx):
             ops = build_history(rng, kinds, parsed, named, donors, si0)
         except (gen.TooDeep, RecursionError):
             continue
-        em = K.expected_meta(parsed, codec, None)
+        # metadata given at creation: none, plain user entries, or a dict that ALREADY carries avro.* entries (reused from an
+        # earlier writer, which stores its header entries into the caller's dict, or copied from a donor's reader.metadata):
+        # the header must state the codec and schema actually used
+        other = rng.choice([c for c in K.CODECS if c != codec])
+        meta0 = rng.choice([None, None, {"k": "v"}, {"avro.codec": other, "note": "copied"},
+                            {"avro.codec": other, "avro.schema": '"long"', "z": ""}])
+        em = K.expected_meta(parsed, codec, meta0)
         exprs.append(K.expr_history(parsed, named, em, sync, si0, model_ops(ops) + [("flush",)]))
-        jobs.append(dict(raw=raw, parsed=parsed, named=named, codec=codec, si=si0, sync=sync, ops=ops, kinds=kinds))
+        jobs.append(dict(raw=raw, parsed=parsed, named=named, codec=codec, si=si0, sync=sync, ops=ops, kinds=kinds, meta0=meta0))
     model = CC.run_model(ctx, exprs, "c07h")
     rex, rmeta = [], []
     for j, m in zip(jobs, model):
@@ -203,8 +209,8 @@ def run(ctx):
         if any(st in ("U", "FUEL") for st, _ in steps):
             ctx.notes["model_unspecified_histories"] = ctx.notes.get("model_unspecified_histories", 0) + 1
             continue
-        hdr_i, trace, final = run_impl(j["raw"], j["parsed"], j["codec"], j["si"], j["sync"], j["ops"])
-        case = dict(schema=j["raw"], codec=j["codec"], sync_interval=j["si"], sync=j["sync"].hex(), kinds=j["kinds"],
+        hdr_i, trace, final = run_impl(j["raw"], j["parsed"], j["codec"], j["si"], j["sync"], j["ops"], j.get("meta0"))
+        case = dict(schema=j["raw"], codec=j["codec"], sync_interval=j["si"], sync=j["sync"].hex(), kinds=j["kinds"], metadata_at_creation=j.get("meta0"),
                     ops=[(o[0],) + tuple(repr(x)[:200] for x in o[1:3]) for o in j["ops"]])
         nsub = sum(1 for (st, _), o in zip(steps, j["ops"]) if o[0] in ("write", "block") and st == "ok")
         ctx.count("corr:writer-trace", (repr(j["raw"]), repr(j["ops"])[:3000], j["codec"], j["si"]),
